@@ -378,7 +378,11 @@ CLAIMED["C08"] = {
     "inlined check_prior_bounds, with and without returned latent points) "
     "attaches to every returned point exactly the density forward_pass "
     "computes for it, returns only in-bounds points and keeps x / log_prob "
-    "/ z aligned. Importance proposal: the real inverse_rescale is the "
+    "/ z aligned. The real bodies of FlowProposal.rescale / "
+    "inverse_rescale are proved against an abstract reparameterisation "
+    "object (per-row maps with a log-Jacobian): right lengths, the "
+    "log-Jacobian starts from zero, non-sampling fields carried over, the "
+    "input array not written. Importance proposal: the real inverse_rescale is the "
     "abstract map Ri when clipping is off (proved) and is NOT when "
     "clip=True (known finding, witnessed on the real code: the density "
     "attached at generation is that of the un-clipped point); the "
